@@ -16,3 +16,10 @@ package edf
 //@   props C16
 //@   requires state != nil
 //@   assume atomTable(state.options.AtomCache) && atomTable(state.options.AtomMapping)
+
+// Encode appends the encoding of x to b (contract assumed at callers for now; the leaf encoders are
+// under contract separately).
+//@ func Encode
+//@   trusted
+//@   modifies b.B, elems(b.B)
+//@   ensures len(b.B) >= old(len(b.B)) && cap(b.B) >= len(b.B)
